@@ -92,6 +92,9 @@ namespace igris
             // переключатель строки истории на последнюю строку.
             _line.reset();
             _curhist = 0;
+            // a line aborted by Ctrl-C also aborts a half-typed escape
+            // sequence
+            _state = READLINE_STATE_NORMAL;
         }
 
         size_t history_size()
